@@ -2,3 +2,7 @@ check('C03', 'runtime monitor: exception-class census + position-range assertion
       'Held on every input executed: all token sequences up to length 2 (quick) / 3 (thorough) over a 128-token alphabet with and without separators, mutations, escape-shape matrix, long numerals/identifiers, 100000-deep nesting, random code points; three engine variants. Says nothing about inputs not generated.',
       'Trusts ply to be the only path from engine(text) to the lexer; termination judged by token-fetch count, not wall-clock.',
       'DESIGN.md 2/C03')
+check('C01', 'runtime monitor: controlled (baton) scheduler with scheduling points at every ply Lexer.token entry, stateless DFS over all interleavings + random schedules + free-running 1us-switch stress; oracle = outcome on a fresh engine; history and aftermath monitors',
+      'Held on every schedule executed: all interleavings (token-fetch granularity) of every ordered pair of a 12-text pool of valid/invalid texts on one shared engine (incl. engine.copy and per-call options access paths), random 2-3 thread schedules over long texts, histories with repeats, module-level yaql.eval cache, free-running threads. Between two token fetches threads are atomic in the controlled mode.',
+      'Baseline is a freshly created engine per distinct text; interleavings finer than token fetches are only sampled by the free-running mode.',
+      'DESIGN.md 2/C01')
